@@ -8,6 +8,7 @@
 #include <sys/types.h>
 #include <dirent.h>
 #include <openssl/rand.h>
+#include <openssl/err.h>
 #include <sys/syscall.h>
 #include <sys/time.h>
 #include <time.h>
@@ -66,6 +67,17 @@ struct BlockInfo {
 };
 static std::unordered_map<void *, BlockInfo> *g_live;
 static uint64_t g_live_bytes;
+static std::unordered_map<size_t, std::vector<void *>> *g_recycle; // reuse mode: size -> freed blocks (LIFO)
+
+static void recycle_flush()
+{
+	if (!g_recycle)
+		return;
+	for (auto &kv : *g_recycle)
+		for (void *p : kv.second)
+			free(p);
+	g_recycle->clear();
+}
 
 uint64_t SimAlloc::live_blocks() const
 {
@@ -87,6 +99,8 @@ void SimAlloc::reset_run()
 			free(kv.first);
 		g_live->clear();
 	}
+	recycle_flush();
+	reuse = false;
 	g_live_bytes = 0;
 	g_live_atomic.store(0);
 	armed = false;
@@ -149,7 +163,16 @@ extern "C" void *sim_malloc(size_t n)
 			return NULL;
 		}
 	}
-	void *p = malloc(n ? n : 1);
+	void *p = NULL;
+	if (g_alloc.reuse && g_recycle) {
+		auto it = g_recycle->find(n);
+		if (it != g_recycle->end() && !it->second.empty()) {
+			p = it->second.back();
+			it->second.pop_back();
+		}
+	}
+	if (!p)
+		p = malloc(n ? n : 1);
 	if (!p)
 		return NULL;
 	if (!g_live)
@@ -171,8 +194,16 @@ extern "C" void sim_free(void *p)
 	if (g_live) {
 		auto it = g_live->find(p);
 		if (it != g_live->end()) {
-			g_live_bytes -= it->second.size;
+			size_t sz = it->second.size;
+			g_live_bytes -= sz;
 			g_live->erase(it);
+			if (g_alloc.reuse) {
+				if (!g_recycle)
+					g_recycle = new std::unordered_map<size_t, std::vector<void *>>();
+				memset(p, 0xdd, sz);
+				(*g_recycle)[sz].push_back(p);
+				return;
+			}
 		}
 		// A pointer we never handed out: let free() (ASan) judge it.
 	}
@@ -515,6 +546,8 @@ void sim_scratch_cleanup()
 // ================================================================ reset
 void sim_reset_run()
 {
+	// thread-local library state must not travel from one run to the next
+	ERR_clear_error();
 	g_clock.reset();
 	g_alloc.reset_run();
 	jwt_set_crypto_ops("openssl");
